@@ -158,4 +158,186 @@ def TABLES():
             fn, f.lineno, ', '.join(targets), '; '.join('handler.%s()' % c for c in calls)))
         out.append('def %s_targets : List String := [%s]' % (fn, ', '.join(extract.lean_str(t) for t in targets)))
         out.append('def %s_calls : List String := [%s]' % (fn, ', '.join(extract.lean_str(c) for c in calls)))
+    out.extend(_fanout_tables(tree, dtree))
+    return out
+
+
+# ---------------------------------------------------------------------------------------------
+# the clear / reopen fan-out: who is reached when a log is cleared or reopened
+#
+# Every function on the way from an operator's request (clearLog, clearProcessLogs, SIGUSR2) to
+# handler.remove()/reopen() is a loop over handlers / dispatchers / processes / groups.  The body of
+# each loop (and the statements before it) is dumped as a list of *flattened guarded statements*
+# which Model/LogFan.lean interprets: a statement runs for the current element when all its guards
+# hold; `break` / `return` leave the loop, `continue` goes to the next element.  So an early exit, a
+# dropped call, a new condition or a reordering in /repo changes the table the theorems are about.
+# ---------------------------------------------------------------------------------------------
+_FAN_HEADER = [
+    '/-- one flattened statement of a clear/reopen fan-out: `act` runs for the current loop element when every guard',
+    '    `(polarity, kind, name)` holds (`kind = "hasattr"`: hasattr(element, name); `"notnone"`: element is not None;',
+    '    anything else is not modelled).  `act`: "elem.<m>" = element.<m>(), "logger.info" (arg = the literal message,',
+    '    "?" when computed), "call" (arg = the callee text), "break", "continue", "return", "raise", "?" -/',
+    'structure FanStmt where',
+    '  guards : List (Bool × String × String)',
+    '  act : String',
+    '  arg : String',
+    'deriving DecidableEq, Repr',
+    '',
+]
+
+
+def _fan_guard(test, var):
+    """-> [(polarity, kind, name)] for a conjunction of static tests on the loop element"""
+    if isinstance(test, ast.BoolOp) and isinstance(test.op, ast.And):
+        res = []
+        for v in test.values:
+            res.extend(_fan_guard(v, var))
+        return res
+    if isinstance(test, ast.UnaryOp) and isinstance(test.op, ast.Not):
+        inner = _fan_guard(test.operand, var)
+        if len(inner) == 1:
+            return [(not inner[0][0], inner[0][1], inner[0][2])]
+        return [(True, 'other', ast.unparse(test))]
+    if (isinstance(test, ast.Call) and ast.unparse(test.func) == 'hasattr' and len(test.args) == 2
+            and var is not None and ast.unparse(test.args[0]) == var
+            and isinstance(test.args[1], ast.Constant) and isinstance(test.args[1].value, str)):
+        return [(True, 'hasattr', test.args[1].value)]
+    if (isinstance(test, ast.Compare) and len(test.ops) == 1 and var is not None and ast.unparse(test.left) == var
+            and isinstance(test.comparators[0], ast.Constant) and test.comparators[0].value is None):
+        if isinstance(test.ops[0], ast.IsNot): return [(True, 'notnone', '')]
+        if isinstance(test.ops[0], ast.Is): return [(False, 'notnone', '')]
+    return [(True, 'other', ast.unparse(test))]
+
+
+def _fan_flatten(stmts, var, guards=()):
+    """flattened guarded statements of a block; `var` = the loop variable (None outside a loop)"""
+    res = []
+    for st in stmts:
+        g = list(guards)
+        if isinstance(st, ast.Pass):
+            continue
+        if isinstance(st, ast.Expr) and isinstance(st.value, ast.Constant) and isinstance(st.value.value, str):
+            continue                                    # docstring
+        if isinstance(st, ast.If):
+            tg = _fan_guard(st.test, var)
+            res.extend(_fan_flatten(st.body, var, g + tg))
+            if st.orelse:
+                if len(tg) == 1:
+                    res.extend(_fan_flatten(st.orelse, var, g + [(not tg[0][0], tg[0][1], tg[0][2])]))
+                else:
+                    res.extend(_fan_flatten(st.orelse, var, g + [(False, 'other', ast.unparse(st.test))]))
+            continue
+        if isinstance(st, ast.Break): res.append((g, 'break', '')); continue
+        if isinstance(st, ast.Continue): res.append((g, 'continue', '')); continue
+        if isinstance(st, ast.Return): res.append((g, 'return', '')); continue
+        if isinstance(st, ast.Raise): res.append((g, 'raise', '')); continue
+        if isinstance(st, ast.Expr) and isinstance(st.value, ast.Call):
+            c = st.value
+            f = ast.unparse(c.func)
+            if var is not None and isinstance(c.func, ast.Attribute) and ast.unparse(c.func.value) == var \
+                    and not c.args and not c.keywords:
+                res.append((g, 'elem.' + c.func.attr, '')); continue
+            if f.endswith('logger.info') and len(c.args) == 1 and not c.keywords:
+                a = c.args[0]
+                res.append((g, 'logger.info', a.value if isinstance(a, ast.Constant) and isinstance(a.value, str) else '?'))
+                continue
+            if not c.args and not c.keywords:
+                res.append((g, 'call', f)); continue
+        res.append((g, '?', ast.unparse(st).split('\n')[0][:80]))
+    return res
+
+
+def _fan_lean(name, comment, stmts):
+    def one(s):
+        g, act, arg = s
+        gs = ', '.join('(%s, %s, %s)' % ('true' if p else 'false', extract.lean_str(k), extract.lean_str(n)) for p, k, n in g)
+        return '⟨[%s], %s, %s⟩' % (gs, extract.lean_str(act), extract.lean_str(arg))
+    return ['-- ' + comment, 'def %s : List FanStmt := [%s]' % (name, ', '.join(one(s) for s in stmts))]
+
+
+def _fan_block(out, prefix, what, stmts, itertext, varname):
+    """a block `pre*; for <varname> in <itertext>: body; post*` -> <prefix>_pre, <prefix>_body, <prefix>_post"""
+    loops = [i for i, st in enumerate(stmts) if isinstance(st, ast.For)]
+    if len(loops) != 1:
+        raise Untranslatable('%s: exactly one top-level for loop expected, found %d' % (what, len(loops)))
+    loop = stmts[loops[0]]
+    if ast.unparse(loop.iter) != itertext or not isinstance(loop.target, ast.Name) or loop.target.id != varname:
+        raise Untranslatable('%s: loop is not `for %s in %s`: for %s in %s' % (
+            what, varname, itertext, ast.unparse(loop.target), ast.unparse(loop.iter)))
+    if loop.orelse:
+        raise Untranslatable('%s: for ... else' % what)
+    out.extend(_fan_lean(prefix + '_pre', '%s: statements before the loop' % what, _fan_flatten(stmts[:loops[0]], None)))
+    out.extend(_fan_lean(prefix + '_body', '%s:%d  for %s in %s' % (what, loop.lineno, varname, itertext),
+                         _fan_flatten(loop.body, varname)))
+    out.extend(_fan_lean(prefix + '_post', '%s: statements after the loop' % what, _fan_flatten(stmts[loops[0] + 1:], None)))
+
+
+def _fanout_tables(ltree, dtree):
+    out = [''] + list(_FAN_HEADER)
+    rd = lambda f: ast.parse(open(os.path.join(extract.REPO, f)).read())
+    # ---- rpcinterface.clearLog: remove the file behind the handlers, then reopen every handler --------
+    rtree = rd('supervisor/rpcinterface.py')
+    f = find_func(rtree, 'SupervisorNamespaceRPCInterface.clearLog')
+    loops = [i for i, st in enumerate(f.body) if isinstance(st, ast.For)]
+    if len(loops) != 1:
+        raise Untranslatable('clearLog: exactly one top-level for loop expected')
+    pre = f.body[:loops[0]]
+    removes = [n for st in pre for n in ast.walk(st) if isinstance(n, ast.Call) and ast.unparse(n.func).endswith('options.remove')]
+    lf = [st for st in pre if isinstance(st, ast.Assign) and ast.unparse(st.targets[0]) == 'logfile']
+    if len(removes) != 1 or [ast.unparse(a) for a in removes[0].args] != ['logfile'] or len(lf) != 1 \
+            or ast.unparse(lf[0].value) != 'self.supervisord.options.logfile':
+        raise Untranslatable('clearLog: expected one options.remove(logfile) with logfile = self.supervisord.options.logfile before the loop')
+    out.append('-- clearLog:%d  %s  (the file at the configured path is unlinked behind the handlers; name index 0)' % (
+        removes[0].lineno, ast.unparse(removes[0])))
+    out.append('def clearLog_removedIdx : Int := (0 : Int)')
+    _fan_block(out, 'clearLog', 'SupervisorNamespaceRPCInterface.clearLog', f.body[loops[0]:],
+               'self.supervisord.options.logger.handlers', 'handler')
+    # ---- ServerOptions.reopenlogs (SIGUSR2, the activity log) -----------------------------------------
+    otree = rd('supervisor/options.py')
+    f = find_func(otree, 'ServerOptions.reopenlogs')
+    _fan_block(out, 'optReopenlogs', 'ServerOptions.reopenlogs', f.body, 'self.logger.handlers', 'handler')
+    # ---- ServerOptions.make_logger: which handlers the activity logger gets, in which order ------------
+    f = find_func(otree, 'ServerOptions.make_logger')
+    mk = []
+    def walk(stmts, guarded):
+        for st in stmts:
+            if isinstance(st, ast.If):
+                walk(st.body, guarded + [ast.unparse(st.test)]); walk(st.orelse, guarded + ['not (%s)' % ast.unparse(st.test)])
+            elif isinstance(st, ast.Expr) and isinstance(st.value, ast.Call) and ast.unparse(st.value.func).startswith('loggers.handle_'):
+                mk.append((ast.unparse(st.value.func)[len('loggers.'):], guarded))
+    walk(f.body, [])
+    for nm, g in mk:
+        if g not in ([], ['self.nodaemon and (not self.silent)']):
+            raise Untranslatable('make_logger: %s under condition %r' % (nm, g))
+    out.append('-- ServerOptions.make_logger:%d  handlers attached to the activity logger, in order; true = only `if self.nodaemon and not self.silent`' % f.lineno)
+    out.append('def makeLogger_handlers : List (String × Bool) := [%s]' % ', '.join(
+        '(%s, %s)' % (extract.lean_str(nm), 'true' if g else 'false') for nm, g in mk))
+    # ---- Subprocess / ProcessGroupBase: dispatchers of a process, processes of a group ------------------
+    ptree = rd('supervisor/process.py')
+    for fn in ('removelogs', 'reopenlogs'):
+        f = find_func(ptree, 'Subprocess.' + fn)
+        _fan_block(out, 'sp' + fn.capitalize(), 'Subprocess.' + fn, f.body, 'self.dispatchers.values()', 'dispatcher')
+        f = find_func(ptree, 'ProcessGroupBase.' + fn)
+        _fan_block(out, 'pg' + fn.capitalize(), 'ProcessGroupBase.' + fn, f.body, 'self.processes.values()', 'process')
+    # ---- Supervisor.handle_signal, the SIGUSR2 branch ---------------------------------------------------
+    stree = rd('supervisor/supervisord.py')
+    f = find_func(stree, 'Supervisor.handle_signal')
+    branches = [n for n in ast.walk(f) if isinstance(n, ast.If) and ast.unparse(n.test) == 'sig == signal.SIGUSR2']
+    if len(branches) != 1:
+        raise Untranslatable('handle_signal: one `sig == signal.SIGUSR2` branch expected')
+    _fan_block(out, 'sigusr2', 'Supervisor.handle_signal[SIGUSR2]', branches[0].body, 'self.process_groups.values()', 'group')
+    # ---- clearProcessLogs: the process it was asked about ------------------------------------------------
+    f = find_func(rtree, 'SupervisorNamespaceRPCInterface.clearProcessLogs')
+    calls = [ast.unparse(n.func) for n in ast.walk(f) if isinstance(n, ast.Call) and ast.unparse(n.func).startswith('process.')]
+    out.append('-- SupervisorNamespaceRPCInterface.clearProcessLogs:%d  calls on the named process' % f.lineno)
+    out.append('def clearProcessLogs_calls : List String := [%s]' % ', '.join(extract.lean_str(c[len('process.'):]) for c in calls))
+    # ---- PEventListenerDispatcher.removelogs / reopenlogs (an event listener's stdout log) ---------------
+    for fn in ('removelogs', 'reopenlogs'):
+        f = find_func(dtree, 'PEventListenerDispatcher.' + fn)
+        body = f.body
+        if len(body) == 1 and isinstance(body[0], ast.If) and ast.unparse(body[0].test) == 'self.childlog is not None' and not body[0].orelse:
+            body = body[0].body
+        else:
+            raise Untranslatable('PEventListenerDispatcher.%s: `if self.childlog is not None:` expected' % fn)
+        _fan_block(out, 'el' + fn.capitalize(), 'PEventListenerDispatcher.' + fn, body, 'self.childlog.handlers', 'handler')
     return out
